@@ -1,4 +1,4 @@
-import Hls.Muxer.TimeFirstRun
+import Hls.Muxer.TimeTs
 /-!
 # C03 — Playlist durations, target durations and date-times match the media
 
@@ -234,6 +234,39 @@ theorem c03_pdt {cfg : Cfg} {st0 : State} (h0 : start cfg = .ok st0) (hv : cfg.v
   obtain ⟨x, hx, h1, h2, h3⟩ := (c03_first_unit h0 hv ops hwf).1 g' (List.mem_of_getElem? hg')
   simp only [Seg.key, Prod.mk.injEq] at hkk
   exact ⟨g', x, hg', hx, by rw [h3, hkk.2.2.1], by rw [h2, hkk.1], h1⟩
+
+/-- **MPEG-TS: segment start and date-time come from the unit that opens the segment.**  One successful `write` of
+an accepted H264 unit in a reachable state of an MPEG-TS muxer: if it creates the first segment or rotates the
+segments (the counter moves, see `C02.c02_cut_iff_due_ts_video` for when), the open segment afterwards has
+`startDTS = toDur dts`, `startNTP = ntp` of this very unit, which is its first PES; in every case the open segment now
+ends at `toDur dts` (so a later rotation at `nextDTS` closes it with `endDTS = nextDTS = startDTS` of its successor,
+`c03_extinf_span`). -/
+theorem c03_pdt_ts {cfg : Cfg} {st0 : State} (h0 : start cfg = .ok st0) (hv : cfg.variant = .mpegts)
+    (ops : List WriteOp) (op : WriteOp) (hcd : ((run st0 ops).tcfg op.track).codec = .h264)
+    (hacc : Accepted (run st0 ops) op) (hok : (write (run st0 ops) op).2 = .ok) :
+    ∃ o', ((write (run st0 ops) op).1.stream 0).nextSegment = some o' ∧
+      o'.endDTS = toDur op.dts ((run st0 ops).tcfg op.track).clockRate ∧
+      ((((run st0 ops).stream 0).nextSegment = none ∨
+        ((write (run st0 ops) op).1.stream 0).nextSegmentID ≠ ((run st0 ops).stream 0).nextSegmentID) →
+       o'.startDTS = toDur op.dts ((run st0 ops).tcfg op.track).clockRate ∧ o'.startNTP = op.ntp ∧
+       o'.tsUnits = [h264Unit (run st0 ops) op]) := by
+  have hc := run_cfg h0 ops
+  have hv0 : st0.cfg.variant = .mpegts := by rw [start_variant h0]; exact hv
+  have hg := reach_GI h0 ops
+  have hL : leadStream st0 = 0 := by unfold leadStream State.streamOf; rw [hv0]
+  rw [hL] at hg
+  obtain ⟨o', h1, h2, h3⟩ := ts_video_write hg (by rw [hc]; exact hv0) op hcd hacc hok
+  refine ⟨o', h1, h2, fun hopen => ?_⟩
+  cases hseg : ((run st0 ops).stream 0).nextSegment with
+  | none => rw [hseg] at h3; exact ⟨h3.2.1, h3.2.2.1, h3.2.2.2.1⟩
+  | some seg =>
+    rw [hseg] at h3 hopen
+    simp only at h3
+    split at h3
+    · exact ⟨h3.2.1, h3.2.2.1, h3.2.2.2.1⟩
+    · rcases hopen with h | h
+      · cases h
+      · exact absurd h3.1 h
 
 /-! ## Non-vacuity: a concrete Low-Latency muxer (H264 + AAC), rotations, a parameter change -/
 
